@@ -98,6 +98,9 @@ func (t *token) Float64() float64 {
 }
 
 func (t *token) Append(b *token) {
+	if b == nil {
+		panicf("unexpected ;")
+	}
 	t.Tokens = append(t.Tokens, b)
 }
 
